@@ -1,4 +1,5 @@
 import OdakProofs.Lemmas.Losses
+import OdakProofs.Lemmas.GenLosses
 
 /-! # C17 – losses vanish at identity, are non-negative, and do not depend on call history -/
 namespace Odak
@@ -282,5 +283,130 @@ example : psnr 1 (1 / 100) = (20 : ℝ) := by
   have h10 : Real.log 10 ≠ 0 := (Real.log_pos (by norm_num)).ne'
   simp only [psnr, num_ofNat, num_log, num_sqrt, h]
   norm_num
+
+/-! # C17 over the loss formulas REGENERATED from the Python source (`Generated/LossesGen.lean`)
+
+The statements below are about `Odak.Gen.*`, rewritten from `/repo` on every run; they follow from the tie theorems of
+`Lemmas/GenLosses.lean` and the theorems above. -/
+
+open Odak.Gen in
+/-- regenerated `multiplane_loss.__call__`: non-negative for non-negative weights, zero when image = target (any weights, any mask) -/
+theorem C17_gen_multiplane_nonneg_zero (w0 w1 w2 : ℝ) (hw : 0 ≤ w0 ∧ 0 ≤ w1 ∧ 0 ≤ w2) (img tgt mask : List ℝ) :
+    0 ≤ multiplaneLossG w0 w1 w2 img tgt mask ∧ multiplaneLossG w0 w1 w2 tgt tgt mask = 0 := by
+  rw [gen_multiplaneLossG_eq, gen_multiplaneLossG_eq]
+  exact ⟨C17_multiplane_nonneg w0 w1 w2 hw img tgt mask, C17_multiplane_zero_at_identity w0 w1 w2 tgt mask⟩
+
+open Odak.Gen in
+/-- regenerated `wrapped_mean_squared_error`, both reductions: non-negative and zero at identity -/
+theorem C17_gen_wrapped_nonneg_zero (a b : List ℝ) (h : a.length ≤ b.length) :
+    0 ≤ wrappedMseMeanG a b ∧ wrappedMseMeanG a a = 0 ∧ 0 ≤ wrappedMseSumG a b ∧ wrappedMseSumG a a = 0 := by
+  rw [gen_wrappedMseMeanG_eq a b h, gen_wrappedMseMeanG_eq a a le_rfl, gen_wrappedMseSumG_eq, gen_wrappedMseSumG_eq]
+  refine ⟨C17_wrapped_nonneg a b, C17_wrapped_zero_at_identity a, ?_, ?_⟩
+  · exact sumL_zipWith_nonneg _ (fun x y => add_nonneg (sq_nonneg' _) (sq_nonneg' _)) a b
+  · exact sumL_zipWith_self _ (fun x => by simp [wrappedTerm, num_sq]) a
+
+open Odak.Gen in
+/-- regenerated wrapped error is 2π-periodic in both arguments (both reductions) -/
+theorem C17_gen_wrapped_periodic (a b : List ℝ) (h : a.length ≤ b.length) (j : ℤ) :
+    wrappedMseMeanG (a.map (· + 2 * Real.pi * j)) b = wrappedMseMeanG a b ∧
+    wrappedMseMeanG a (b.map (· + 2 * Real.pi * j)) = wrappedMseMeanG a b ∧
+    wrappedMseSumG (a.map (· + 2 * Real.pi * j)) b = wrappedMseSumG a b ∧
+    wrappedMseSumG a (b.map (· + 2 * Real.pi * j)) = wrappedMseSumG a b := by
+  have hs : ∀ x : ℝ, Real.sin (x + 2 * Real.pi * j) = Real.sin x := fun x => by
+    rw [mul_comm]; exact Real.sin_add_int_mul_two_pi x j
+  have hc : ∀ x : ℝ, Real.cos (x + 2 * Real.pi * j) = Real.cos x := fun x => by
+    rw [mul_comm]; exact Real.cos_add_int_mul_two_pi x j
+  obtain ⟨p1, p2⟩ := C17_wrapped_periodic a b j
+  have e1 := gen_wrappedMseMeanG_eq (a.map (· + 2 * Real.pi * j)) b (by simpa using h)
+  have e2 := gen_wrappedMseMeanG_eq a (b.map (· + 2 * Real.pi * j)) (by simpa using h)
+  have e3 := gen_wrappedMseMeanG_eq a b h
+  rw [e1, e2, e3, gen_wrappedMseSumG_eq, gen_wrappedMseSumG_eq, gen_wrappedMseSumG_eq]
+  refine ⟨p1, p2, ?_, ?_⟩
+  · rw [List.zipWith_map_left]; simp only [wrappedTerm, num_sin, num_cos, hs, hc]; rfl
+  · rw [List.zipWith_map_right]; simp only [wrappedTerm, num_sin, num_cos, hs, hc]; rfl
+
+open Odak.Gen in
+/-- regenerated `total_variation_loss` of a single frame: non-negative, zero on uniform images, and (non-empty rectangular frames)
+    zero ONLY on uniform images -/
+theorem C17_gen_tv_nonneg_zero (rows : List (List ℝ)) (r c : Nat) (v : ℝ) :
+    0 ≤ totalVariationLossG rows ∧ totalVariationLossG (List.replicate r (List.replicate c v)) = 0 ∧
+    (0 < r → 0 < c → rows.length = r → (∀ row ∈ rows, row.length = c) →
+      (totalVariationLossG rows = 0 ↔ ∃ v, rows = List.replicate r (List.replicate c v))) := by
+  rw [gen_totalVariationLossG_eq, gen_totalVariationLossG_eq]
+  exact ⟨C17_tv_nonneg rows, C17_tv_zero_of_uniform r c v, fun hr hc hl hrect => C17_tv_zero_iff_uniform r c hr hc rows hl hrect⟩
+
+open Odak.Gen in
+/-- regenerated `PSNR.forward`: strictly larger for the prediction with the strictly smaller (positive) mean squared error -/
+theorem C17_gen_psnr_strictly_decreasing (t p1 p2 : List ℝ) (peak : ℝ) (hp : 0 < peak) (h1 : t.length ≤ p1.length)
+    (h2 : t.length ≤ p2.length) (hm1 : 0 < mse t p1) (hm : mse t p1 < mse t p2) : psnrG p2 t peak < psnrG p1 t peak := by
+  rw [gen_psnrG_eq p1 t peak h1, gen_psnrG_eq p2 t peak h2]
+  exact C17_psnr_strictly_decreasing peak _ _ hp hm1 hm
+
+open Odak.Gen in
+/-- regenerated `histogram_loss`: non-negative and zero when frame = ground truth -/
+theorem C17_gen_histogram_nonneg_zero (f g : T4 ℝ) (bins : Nat) (lo hi : ℝ) :
+    0 ≤ histogramLossG f g bins lo hi ∧ histogramLossG f f bins lo hi = 0 := by
+  rw [gen_histogramLossG_eq, gen_histogramLossG_eq]
+  exact ⟨(C17_histogram_nonneg_zero _ _).1, (C17_histogram_nonneg_zero _ (Tn.flat2 (histogramTableG f bins lo hi))).2⟩
+
+open Odak.Gen in
+/-- regenerated `speckle_contrast`: the contrast of a uniform window is zero, that of a window with non-negative mean is
+    non-negative; the loss is non-negative and zero when every window has zero contrast (uniform image) -/
+theorem C17_gen_speckle_nonneg_zero (v mu m2 : ℝ) (hmu : 0 ≤ mu) (c : List ℝ) :
+    speckleWindowG v (v * v) = 0 ∧ 0 ≤ speckleWindowG mu m2 ∧ 0 ≤ speckleLossG c ∧
+    ((∀ x ∈ c, x = 0) → speckleLossG c = 0) := by
+  rw [gen_speckleWindowG_eq, gen_speckleWindowG_eq, gen_speckleLossG_eq]
+  exact ⟨C17_speckle_zero_of_uniform v, C17_speckle_nonneg mu m2 hmu, mse_nonneg _ _, mse_zeros_eq_zero_of_all_zero c⟩
+
+open Odak.Gen in
+/-- regenerated `phase_gradient`: the Laplacian response to a uniform 3 × 3 window is zero; the loss is non-negative and zero
+    when every response is zero (uniform phase) -/
+theorem C17_gen_phase_gradient_nonneg_zero (v : ℝ) (e : List ℝ) :
+    phaseGradientWindowG [[v, v, v], [v, v, v], [v, v, v]] = 0 ∧ 0 ≤ phaseGradientLossG e ∧
+    ((∀ x ∈ e, x = 0) → phaseGradientLossG e = 0) := by
+  rw [gen_phaseGradientLossG_eq]
+  exact ⟨gen_phaseGradientWindowG_uniform v, mse_nonneg _ _, mse_zeros_eq_zero_of_all_zero e⟩
+
+/-- non-vacuity: the regenerated total variation and wrapped error take non-zero values -/
+example : Gen.totalVariationLossG [[1, 2], [1, 2]] = (1 / 2 : ℝ) := by
+  rw [gen_totalVariationLossG_eq]; simp [tvLoss, sumL, num_sq]; norm_num
+
+example : Gen.multiplaneLossG 1 2 3 [1, 2] [1, 4] [1, 0] = (2 + 0 + 3 * 32 : ℝ) := by
+  rw [gen_multiplaneLossG_eq]; simp [multiplaneLoss, mse, sumL, num_sq]; norm_num
+
+open Odak.Gen in
+/-- regenerated `total_variation_loss` of a batched multi-channel `[N, C, H, W]` frame and regenerated
+    `multi_scale_total_variation_loss` (any number of levels): non-negative, zero on uniform frames -/
+theorem C17_gen_tv4_multiscale_nonneg_zero (frame : T4 ℝ) (levels n c h w : Nat) (v : ℝ) :
+    0 ≤ totalVariationLoss4G frame ∧ totalVariationLoss4G (uniform4 n c h w v) = 0 ∧
+    0 ≤ multiScaleTotalVariationLossG frame levels ∧ multiScaleTotalVariationLossG (uniform4 n c h w v) levels = 0 := by
+  rw [gen_totalVariationLoss4G_eq, gen_totalVariationLoss4G_eq, gen_multiScaleTotalVariationLossG_eq,
+    gen_multiScaleTotalVariationLossG_eq]
+  exact ⟨tvLoss4_nonneg frame, tvLoss4_uniform n c h w v, multiScaleTv_nonneg levels frame, multiScaleTv_uniform levels n c h w v⟩
+
+open Odak.Gen in
+/-- regenerated `weber_contrast` / `michelson_contrast` of a single image: zero when both regions have the same mean (uniform
+    image), non-negative when the bright region is at least as bright as the (positive) dark one -/
+theorem C17_gen_contrast_zero_nonneg (img : T2 ℝ) (h0 h1 h2 h3 l0 l1 l2 l3 : Nat) :
+    (regionMean img h0 h1 h2 h3 = regionMean img l0 l1 l2 l3 →
+      weberContrastG img h0 h1 h2 h3 l0 l1 l2 l3 = [0] ∧ michelsonContrastG img h0 h1 h2 h3 l0 l1 l2 l3 = [0]) ∧
+    (0 < regionMean img l0 l1 l2 l3 → regionMean img l0 l1 l2 l3 ≤ regionMean img h0 h1 h2 h3 →
+      ∃ a b : ℝ, weberContrastG img h0 h1 h2 h3 l0 l1 l2 l3 = [a] ∧ michelsonContrastG img h0 h1 h2 h3 l0 l1 l2 l3 = [b] ∧
+        0 ≤ a ∧ 0 ≤ b) := by
+  rw [gen_weberContrastG_eq, gen_michelsonContrastG_eq]
+  constructor
+  · intro e
+    rw [e]
+    obtain ⟨z1, z2, _, _⟩ := contrast_zero_nonneg (regionMean img l0 l1 l2 l3) 1 1 one_pos le_rfl
+    rw [z1, z2]; exact ⟨rfl, rfl⟩
+  · intro hl hh
+    obtain ⟨_, _, n1, n2⟩ := contrast_zero_nonneg 0 _ _ hl hh
+    exact ⟨_, _, rfl, rfl, n1, n2⟩
+
+open Odak.Gen in
+/-- regenerated `radial_basis_function`: values in `(0, 1]`, 1 at 0 -/
+theorem C17_gen_radial_basis_range (value epsilon : ℝ) :
+    0 < radialBasisG value epsilon ∧ radialBasisG value epsilon ≤ 1 ∧ radialBasisG 0 epsilon = 1 := by
+  rw [gen_radialBasisG_eq, gen_radialBasisG_eq]; exact radialBasis_range value epsilon
 
 end Odak
